@@ -24,3 +24,9 @@ def uniformIdx (n : Nat) : Dist Nat := (List.range n).map fun i => (i, 1 / (n : 
 def bern (p : Rat) : Dist Bool := [(true, p), (false, 1 - p)]
 
 end Dist
+
+namespace Dist
+variable {α β : Type}
+/-- push a distribution forward along `f` -/
+def map (f : α → β) (d : Dist α) : Dist β := List.map (fun (a, p) => (f a, p)) d
+end Dist
